@@ -58,8 +58,13 @@ func (m *Mutex) Unlock() {
 
 // RWMutex follows the real implementation's writer preference: once a writer
 // waits, new readers block (so recursive read locking can deadlock, as in Go).
+//
+// Happens-before edges as in the Go memory model: Unlock -> later Lock/RLock,
+// RUnlock -> later Lock. Nothing orders one reader after another, so what a
+// goroutine writes while holding only the read lock races with other readers.
 type RWMutex struct {
-	clk            simrt.Clock
+	clk            simrt.Clock // published by writers
+	rclk           simrt.Clock // published by readers, seen by writers only
 	writer         bool
 	readers        int
 	writersWaiting int
@@ -80,6 +85,7 @@ func (rw *RWMutex) Lock() {
 	}
 	rw.writer = true
 	simrt.Acquire(&rw.clk)
+	simrt.Acquire(&rw.rclk)
 }
 
 func (rw *RWMutex) TryLock() bool {
@@ -89,6 +95,7 @@ func (rw *RWMutex) TryLock() bool {
 	}
 	rw.writer = true
 	simrt.Acquire(&rw.clk)
+	simrt.Acquire(&rw.rclk)
 	return true
 }
 
@@ -128,7 +135,7 @@ func (rw *RWMutex) RUnlock() {
 	if rw.readers <= 0 {
 		simrt.Misuse("sync: RUnlock of unlocked RWMutex")
 	}
-	simrt.Release(&rw.clk)
+	simrt.Release(&rw.rclk)
 	rw.readers--
 	if rw.readers == 0 {
 		rw.waiters.WakeAll()
@@ -249,8 +256,7 @@ type Map struct {
 
 func (m *Map) Load(key any) (value any, ok bool) {
 	simrt.Point("syncmap.load", false)
-	simrt.Acquire(&m.clk)
-	simrt.Release(&m.clk)
+	simrt.Acquire(&m.clk) // a load observes, it publishes nothing
 	value, ok = m.m[key]
 	return
 }
@@ -283,10 +289,10 @@ func (m *Map) Clear() {
 func (m *Map) LoadOrStore(key, value any) (actual any, loaded bool) {
 	simrt.Point("syncmap.loadorstore", true)
 	simrt.Acquire(&m.clk)
-	simrt.Release(&m.clk)
 	if v, ok := m.m[key]; ok {
 		return v, true
 	}
+	simrt.Release(&m.clk)
 	m.store(key, value)
 	return value, false
 }
@@ -348,7 +354,6 @@ func (m *Map) CompareAndDelete(key, old any) bool {
 func (m *Map) Range(f func(key, value any) bool) {
 	simrt.Point("syncmap.range", false)
 	simrt.Acquire(&m.clk)
-	simrt.Release(&m.clk)
 	keys := append([]any(nil), m.keys...)
 	keys = simrt.PermuteAny(keys, "sync.Map.Range")
 	for _, k := range keys {
